@@ -120,11 +120,24 @@ let code w aux = code_with Code.cstep w aux ^ " ;; " ^ code_with Code.cstep_fixe
 let berr = function Basic.BEMalformed -> "malformed" | Basic.BEPolicy -> "policy" | Basic.BEDuplicate -> "duplicate"
                   | Basic.BEFailed -> "failed" | Basic.BEExpired -> "expired" | Basic.BENotFound -> "notfound"
 
+let bcerr_name = function
+  | Basic.BcTooShort -> "short" | Basic.BcPrefix -> "prefix" | Basic.BcVersion -> "version"
+  | Basic.BcCostSyntax -> "costsyntax" | Basic.BcCostRange -> "costrange" | Basic.BcOther -> "other"
+  | Basic.BcIndexPanic -> "indexpanic"
+let bcres_of_string = function
+  | "m" -> Basic.BcMatch | "x" -> Basic.BcMismatch
+  | "e-short" -> Basic.BcError Basic.BcTooShort | "e-prefix" -> Basic.BcError Basic.BcPrefix
+  | "e-version" -> Basic.BcError Basic.BcVersion | "e-costsyntax" -> Basic.BcError Basic.BcCostSyntax
+  | "e-costrange" -> Basic.BcError Basic.BcCostRange | "e-other" -> Basic.BcError Basic.BcOther
+  | s -> failwith ("bad-bcrypt-outcome-" ^ s)
+
 let basic (w : string list) (aux : string list) : string =
   match w with
   | _ :: _minl :: _minp :: ops ->
     (* lower / policies: the table the driver computed with strings.ToLower and the policy of the source;
-       hash := the password itself, verify := equality (bcrypt correctness is in the trusted base) *)
+       hash := the bytes the store holds after the operation (reported by the driver: bcrypt salts are random),
+       cmp := the three-valued outcome table the driver computed with golang.org/x/crypto/bcrypt for exactly the
+       (stored bytes, password) pairs the authenticator may have to compare *)
     let tbl = List.map (fun e -> match split_on ':' e with
         | [sec; low; lok; pok] -> (sec, (low, lok = "1", pok = "1")) | _ -> failwith "bad-lo") (aux_all aux "lo") in
     let split_hex (sec : string) : (string * string) option =
@@ -142,20 +155,29 @@ let basic (w : string list) (aux : string list) : string =
       match List.find_opt (fun (_, (low, _)) -> low = hex_of_bytes u) by_login with
       | Some (_, (_, ok)) -> ok | None -> failwith "login_ok-not-supplied" in
     let pw_ok p = match List.assoc_opt (hex_of_bytes p) by_pw with Some ok -> ok | None -> failwith "pw_ok-not-supplied" in
-    let verify h p = (h = p) in
-    let pw_of sec = match Code.split_colon (bytes_of_hex sec) with Some (_, p) -> p | None -> [] in
+    let bctbl = List.map (fun e -> match split_on ':' e with
+        | [h; p; o] -> ((h, p), bcres_of_string o) | _ -> failwith "bad-bc-entry") (aux_all aux "bc") in
+    let cmp h p = match List.assoc_opt (hex_of_bytes h, hex_of_bytes p) bctbl with
+      | Some o -> o | None -> failwith "bcrypt-outcome-not-supplied" in
+    let stored i = match aux_get aux ("h" ^ string_of_int i) with Some h -> bytes_of_hex h | None -> [] in
+    let raw_bytes = function "nil" -> [] | h -> bytes_of_hex h in
     let st = ref Basic.binit in
-    let out = List.map (fun op ->
+    let out = List.mapi (fun i op ->
       let f = split_on ':' op in
       let mop, tag = match f with
-        | ["ADD"; uid; lvl; sec; lt] -> Basic.BAdd (n_of_string uid, z_of_string lvl, bytes_of_hex sec, pw_of sec, z_of_string lt), "ADD"
+        | ["ADD"; uid; lvl; sec; lt] -> Basic.BAdd (n_of_string uid, z_of_string lvl, bytes_of_hex sec, stored i, z_of_string lt), "ADD"
         | ["AUTH"; sec] -> Basic.BAuth (bytes_of_hex sec), "AUTH"
-        | ["UPD"; uid; sec; lt] -> Basic.BUpd (n_of_string uid, bytes_of_hex sec, pw_of sec, z_of_string lt), "UPD"
+        | ["UPD"; uid; sec; lt] -> Basic.BUpd (n_of_string uid, bytes_of_hex sec, stored i, z_of_string lt), "UPD"
         | ["ADV"; d] -> Basic.BAdv (zmul (z_of_string d) sec), "ADV"
+        | ["RAW"; uid; h] -> Basic.BRaw (n_of_string uid, raw_bytes h), "RAW"
         | _ -> failwith "bad-op" in
-      let (st', r) = Basic.bstep lower login_ok pw_ok verify !st mop in
+      let (st', r) = Basic.bstep lower login_ok pw_ok cmp !st mop in
       st := st';
       match r with
+      | Basic.BRawOk ->
+        (* the class of bcrypt's header check (newFromHash) on the bytes written, by the model of it *)
+        let h = (match mop with Basic.BRaw (_, h) -> h | _ -> []) in
+        "RAW:ok:" ^ (match Basic.bc_header h with None -> "none" | Some e -> bcerr_name e)
       | Basic.BAddOk l -> "ADD:ok:" ^ string_of_z l
       | Basic.BAuthOk (u, l) -> "AUTH:ok:" ^ string_of_n u ^ ":" ^ string_of_z l
       | Basic.BUpdOk -> "UPD:ok"
